@@ -465,7 +465,7 @@ impl Check for NdlNoPanic {
         "C14.ndl"
     }
     fn rule(&self) -> String {
-        "generated: a valid rendered description (as in C19) mutated 1..6 times by token insertion (brackets, quotes, =, tabs, 4 spaces, newlines, CRLF, backslashes, whole well-formed lines, keywords incl. IPtype, non-ASCII, BOM, NUL) at a character boundary, deletion of a character range, truncation, re-indentation of one line, or replacement of one character; always valid UTF-8 (the API takes text); oracle: core_parser returns Ok or Err, never unwinds. non-trivial: the mutated text still contains at least one well-formed section line. distinct: hash of decoded text".into()
+        "generated: a valid rendered description (as in C19) mutated 1..6 times by token insertion (brackets, quotes, =, tabs, 4 spaces, newlines, CRLF, backslashes, whole well-formed lines, keywords incl. IPtype, non-ASCII, BOM, NUL) at a character boundary, deletion of a character range, truncation, re-indentation of one line, replacement of one character, or replacement of an ASCII letter (of a section keyword) by a look-alike whose case forms differ in length (Kelvin sign, long s, dotted/dotless i, Angstrom sign); always valid UTF-8 (the API takes text); oracle: core_parser returns Ok or Err, never unwinds. non-trivial: the mutated text still contains at least one well-formed section line. distinct: hash of decoded text".into()
     }
     fn max_entropy(&self) -> usize {
         500
@@ -487,6 +487,9 @@ impl Check for NdlNoPanic {
         };
         let at = |text: &str, seed: u16| -> usize { (seed as usize * (text.len() + 1)) >> 16 };
         for (kind, seed, tok, extra, flag) in plan {
+            // (a third of the character replacements are look-alike replacements; decided from `extra` so that the decoding of
+            // the other kinds stays what it was when earlier replay files were written)
+            let kind = if kind == 4 && extra % 3 == 0 { 5 } else { kind };
             match kind {
                 0 => {
                     // half of the insertions go to a structural position: right after a ']' or right before a '['
@@ -517,6 +520,38 @@ impl Check for NdlNoPanic {
                     out[li] = format!("{}{}", if flag { "\t".repeat(nt) } else { " ".repeat(nt * 2) }, trimmed);
                     text = out.join("\n");
                     ctx.class("reindented");
+                }
+                5 => {
+                    // an ASCII letter (preferably of a section keyword) replaced by a look-alike whose upper/lower case
+                    // forms differ in encoded length: Kelvin sign, long s, dotted / dotless i, Angstrom sign
+                    let in_keyword: Vec<usize> = {
+                        let mut v = vec![];
+                        let mut inside = false;
+                        for (i, c) in text.char_indices() {
+                            match c {
+                                '[' => inside = true,
+                                ']' | ' ' | '\n' => inside = false,
+                                _ if inside && c.is_ascii_alphabetic() => v.push(i),
+                                _ => {}
+                            }
+                        }
+                        v
+                    };
+                    let letters: Vec<usize> = if !in_keyword.is_empty() && flag { in_keyword } else { text.char_indices().filter(|(_, c)| c.is_ascii_alphabetic()).map(|(i, _)| i).collect() };
+                    if !letters.is_empty() {
+                        let i = letters[(seed as usize * letters.len()) >> 16];
+                        let c = text[i..].chars().next().unwrap();
+                        let rep = match c {
+                            'k' | 'K' => "\u{212a}",
+                            's' | 'S' => "\u{17f}",
+                            'i' => "\u{131}",
+                            'I' => "\u{130}",
+                            'a' | 'A' => "\u{212b}",
+                            _ => ["\u{ff21}", "\u{1e9e}", "\u{130}", "\u{212a}"][extra % 4],
+                        };
+                        text.replace_range(i..i + 1, rep);
+                    }
+                    ctx.class("letter_replaced_by_case_changing_lookalike");
                 }
                 _ => {
                     let i = boundary(&text, at(&text, seed));
